@@ -19,7 +19,7 @@ import (
 // C12 end to end: access rules and route authentication gate every HTTP request.
 func TestVerifC12HTTP(t *testing.T) {
 	L := ev.Begin("C12", "c12-http", "exploration",
-		"access rule {none, allow v4 block, deny v4 block, allow v6 block, allow with malformed item, allow+deny} x auth scheme {none, known basic, unknown} x peer (4) x X-Forwarded-For (none/inside/outside) x credentials {none, good, bad password, unknown user, malformed basic header, other scheme} through the real HTTPProxy.ServeHTTP with a real htpasswd file; oracle: 403 / 401 / 200 exactly as the statement prescribes and the upstream hit counter stays 0 unless admitted and authorised. non-trivial = case with a rule or an auth scheme")
+		"access rule {none, allow v4 block, deny v4 block, allow v6 block, allow with malformed item, allow+deny} x auth scheme {none, known basic, unknown} x configured scheme map {one scheme, empty, nil} x peer (4) x X-Forwarded-For (none/inside/outside) x credentials {none, good, bad password, unknown user, malformed basic header, other scheme} through the real HTTPProxy.ServeHTTP with a real htpasswd file; oracle: 403 / 401 / 200 exactly as the statement prescribes and the upstream hit counter stays 0 unless admitted and authorised. non-trivial = case with a rule or an auth scheme")
 	dir, err := os.MkdirTemp("", "c12")
 	if err != nil {
 		panic(err)
@@ -57,11 +57,12 @@ func TestVerifC12HTTP(t *testing.T) {
 	creds := []cred{{"none", "", false}, {"good", "Basic " + b64("alice:s3cret"), true}, {"badpw", "Basic " + b64("alice:nope"), false},
 		{"unknown-user", "Basic " + b64("bob:s3cret"), false}, {"malformed", "Basic !!!", false}, {"bearer", "Bearer abc", false}, {"empty-pw", "Basic " + b64("alice:"), false}}
 	type job struct {
-		r     rule
-		authN string
-		peer  string
-		xff   string
-		c     cred
+		r       rule
+		authN   string
+		peer    string
+		xff     string
+		c       cred
+		schemes int // 0: the configured scheme map, 1: an empty map (no scheme configured), 2: nil
 	}
 	var jobs []job
 	for _, r := range rules {
@@ -69,7 +70,10 @@ func TestVerifC12HTTP(t *testing.T) {
 			for _, p := range []string{"10.1.2.3", "11.0.0.1", "fe80::1", "10.255.0.1"} {
 				for _, x := range []string{"", "10.9.9.9", "172.16.0.1"} {
 					for _, c := range creds {
-						jobs = append(jobs, job{r, a, p, x, c})
+						jobs = append(jobs, job{r, a, p, x, c, 0})
+						if a != "" && x == "" {
+							jobs = append(jobs, job{r, a, p, x, c, 1}, job{r, a, p, x, c, 2})
+						}
 					}
 				}
 			}
@@ -77,7 +81,14 @@ func TestVerifC12HTTP(t *testing.T) {
 	}
 	rigParallel(len(jobs), func(r *rig, i int) {
 		j := jobs[i]
-		r.proxy.AuthSchemes = schemes
+		switch j.schemes {
+		case 0:
+			r.proxy.AuthSchemes = schemes
+		case 1:
+			r.proxy.AuthSchemes = map[string]auth.AuthScheme{}
+		case 2:
+			r.proxy.AuthSchemes = nil
+		}
 		opts := j.r.opt
 		if j.authN != "" {
 			if opts != "" {
@@ -107,7 +118,7 @@ func TestVerifC12HTTP(t *testing.T) {
 		if j.xff != "" {
 			admitted = admitted && j.r.admit(net.ParseIP(j.xff))
 		}
-		authorized := j.authN == "" || (j.authN == "mybasic" && j.c.good)
+		authorized := j.authN == "" || (j.authN == "mybasic" && j.c.good && j.schemes == 0)
 		want, wantHits := 200, int64(1)
 		switch {
 		case !admitted:
@@ -115,7 +126,7 @@ func TestVerifC12HTTP(t *testing.T) {
 		case !authorized:
 			want, wantHits = 401, 0
 		}
-		d := map[string]interface{}{"route": line, "peer": j.peer, "xff": j.xff, "credentials": j.c.name, "status": rec.Code, "want_status": want, "upstream_hits": hits}
+		d := map[string]interface{}{"route": line, "schemes_configured": []string{"mybasic", "none (empty map)", "none (nil)"}[j.schemes], "peer": j.peer, "xff": j.xff, "credentials": j.c.name, "status": rec.Code, "want_status": want, "upstream_hits": hits}
 		if j.r.opt != "" || j.authN != "" {
 			L.NontrivialKey(fmt.Sprint(j.r.opt, j.authN, j.peer, j.xff, j.c.name))
 		}
@@ -135,7 +146,7 @@ func TestVerifC12HTTP(t *testing.T) {
 			kind = "admitted-request-not-served"
 		}
 		if kind != "" {
-			if j.authN == "nope" {
+			if j.authN == "nope" || j.schemes != 0 {
 				kind += "/unknown-scheme"
 			}
 			L.Violation(kind, d)
